@@ -1218,3 +1218,101 @@ func runWmPublish(c *Ctx, r *RuleRun) {
 		r.Undecided(fn, "waiters released on advance", p.Pos(f.Pos()), "no waiter close guarded by the newly computed mark")
 	}
 }
+
+func init() {
+	register(&Rule{ID: "RECOVER.FILTER", Engine: "E-GUARD", Min: 1,
+		Desc: "recovery loads as tables only directory entries whose extension is exactly .db: the temporary files of the table writer (and anything else) are ignored",
+		Run:  runRecoverFilter})
+	register(&Rule{ID: "LIVE.NOSPAWN", Engine: "E-CG", Min: 2,
+		Desc: "background work is confined to the two goroutines Close and Stop know about (the flusher started by Open, the consumer started by watermark.New): no other go statement starts work that touches files or locks and outlives Close",
+		Run:  runLiveNoSpawn})
+}
+
+func runRecoverFilter(c *Ctx, r *RuleRun) {
+	p := c.P
+	rec := p.FnOr("", "levelManager", "recover")
+	if rec == nil {
+		r.Undecided("-", "levelManager.recover", "", "anchor not found")
+		return
+	}
+	isDbExt := func(cm Cmp) bool {
+		// path.Ext(x) == ".db"   or   strings.HasSuffix(x, ".db") == true
+		if cm.Y != nil && cm.Op == "==" {
+			if s, ok := constString(cm.Y); ok && s == ".db" {
+				if call, ok := cm.X.(*ssa.Call); ok {
+					if obj := p.ExtCallee(call); obj != nil && (funcIs(obj, "path", "", "Ext") || funcIs(obj, "path/filepath", "", "Ext")) {
+						return true
+					}
+				}
+			}
+		}
+		if cm.Y == nil && cm.Op == "true" {
+			if call, ok := cm.X.(*ssa.Call); ok {
+				if obj := p.ExtCallee(call); obj != nil && funcIs(obj, "strings", "", "HasSuffix") && len(call.Call.Args) == 2 {
+					if s, ok := constString(call.Call.Args[1]); ok && s == ".db" {
+						return true
+					}
+				}
+			}
+		}
+		return false
+	}
+	n := 0
+	eachInstr(rec, func(ins ssa.Instruction) {
+		call, ok := ins.(*ssa.Call)
+		if !ok {
+			return
+		}
+		bi, ok := call.Call.Value.(*ssa.Builtin)
+		if !ok || bi.Name() != "append" || len(call.Call.Args) < 2 {
+			return
+		}
+		// appends of directory entry names
+		fromDir := p.dependsOn(call.Call.Args[1], func(x ssa.Value) bool {
+			cl, ok := x.(*ssa.Call)
+			return ok && cl.Call.IsInvoke() && cl.Call.Method.Name() == "Name"
+		})
+		if !fromDir {
+			return
+		}
+		n++
+		r.Check(hasFact(call, isDbExt), p.FnName(rec), "only *.db entries are tables", p.Pos(instrPos(call)), "selected under the test Ext(name) == \".db\"",
+			"recovery accepts directory entries that do not end in .db as tables (a parse of the name ignores trailing text): the temporary file N-M.db.tmp left by a crash in the middle of a table write is loaded, and Open panics on its missing footer")
+	})
+	if n == 0 {
+		r.Undecided(p.FnName(rec), "directory scan", p.Pos(rec.Pos()), "no collection of directory entry names found")
+	}
+}
+
+func runLiveNoSpawn(c *Ctx, r *RuleRun) {
+	p := c.P
+	la := c.Locks()
+	d := c.Dur()
+	open := p.Fn("", "", "Open")
+	wmNew := p.Fn("pkg/watermark", "", "New")
+	for _, g := range la.GoSites {
+		f := g.Parent()
+		if strings.HasSuffix(p.Fset.Position(g.Pos()).Filename, "_test.go") {
+			continue
+		}
+		fn, pos := p.FnName(f), p.Pos(instrPos(g))
+		if f == open || f == wmNew {
+			r.Hold(fn, "go statement", pos, "one of the two background goroutines that Close / Stop wait for")
+			continue
+		}
+		// anything else: harmless only if it neither takes locks nor touches files
+		heavy := ""
+		for h := range la.roleReach(p.Callees(g)) {
+			if len(d.byFn[h]) > 0 {
+				heavy = "performs file operations in " + p.FnName(h)
+			}
+			for _, op := range la.Ops {
+				if op.Fn == h && !op.Unlock {
+					heavy = "acquires " + op.Lock + " in " + p.FnName(h)
+				}
+			}
+		}
+		r.Check(heavy == "", fn, "go statement", pos, "started goroutine neither locks nor touches files",
+			"a goroutine is started outside Open/watermark.New and "+heavy+": Close does not wait for it, so background work (e.g. a compaction) can still be rewriting the directory after Close returned and while it is reopened")
+	}
+}
